@@ -3,7 +3,7 @@
 case = (managers, contexts, pipelines, history)
   managers  : [None | timeout:int]                 None = CacheManager, int = TimedCacheManager(timeout)
   contexts  : [(manager_index, pool:bool)]         pool = Context(pool=SubmitAllPool()) -> _runJob_distributed
-  pipelines : [(ctx, partitions, [(tag, fn)])]     tag 0 map, 1 filter, 2 flatMap, 3 persist (fn 0) / cache (fn 1),
+  pipelines : [(ctx, partitions, [(tag, fn)])]     tag 0 map, 1 filter, 2 flatMap, 3 persist (fn 0) / cache (fn 1) / persist(level fn-2: every StorageLevel constant),
                                                    4 mapPartitions (fn<3) / mapPartitionsWithIndex (fn>=3) with generator fn%3,
                                                    5 element function of (partition index, position, element) fn%3: the index from
                                                      mapPartitionsWithIndex (fn<3) or from the task context (fn>=3, as zipWithUniqueId)
@@ -20,6 +20,7 @@ import pysparkling.cache_manager as cm_mod
 import pysparkling.context as ctx_mod
 from pysparkling import Context
 from pysparkling.cache_manager import CacheManager, TimedCacheManager
+from pysparkling.storagelevel import StorageLevel
 
 from common.coqlit import Err
 
@@ -29,7 +30,7 @@ SHARD = 150
 RULE = ('worlds: 1-2 contexts with own or shared CacheManager/TimedCacheManager, local or pool jobs; 1-3 linear '
         'pipelines of map/filter/flatMap/mapPartitions[WithIndex] stages from a 6+6+6+3 function library (the partition '
         'functions consume their iterator in two steps) over 1-3 explicit partitions with '
-        'persist()/cache() at a random subset of positions; histories of 1-7 steps: collect/count/take(n)/first on '
+        'persist()/cache()/persist(level) for every StorageLevel constant at a random subset of positions; histories of 1-7 steps: collect/count/take(n)/first on '
         'ANY node, unpersist on any node, clock advances, explicit gc(); thorough adds the exhaustive scope '
         '(all persist subsets of a 2-stage pipeline on 2 partitions x all histories of length <= 3 over a 9-letter '
         'alphabet); non-trivial = some persisted node is the target or an ancestor of the target of >= 2 actions; '
@@ -55,6 +56,10 @@ LIB_FILTER = [lambda x: x % 2 == 0, lambda x: x > 0, lambda x: x % 3 != 0, lambd
 LIB_FLAT = [lambda x: [x, x], lambda x: [], lambda x: [x], lambda x: list(range(x % 3)),
             lambda x: [x, x + 1, x + 2], lambda x: [] if x % 2 == 0 else [x]]
 MAP, FILTER, FLAT, PERSIST, PART, IDX = 0, 1, 2, 3, 4, 5
+# every StorageLevel constant the module defines (found by inspection, so that a new one is picked up)
+STORAGE_LEVELS = [getattr(StorageLevel, n) for n in sorted(dir(StorageLevel))
+                  if n.isupper() and isinstance(getattr(StorageLevel, n), StorageLevel)]
+N_PERSIST = 2 + len(STORAGE_LEVELS)
 
 # functions of (partition index, position in the partition, element)
 LIB_IDX = [lambda i, e, x: x + 10 * i, lambda i, e, x: e * 7 + i, lambda i, e, x: x * (i + 1) + e]
@@ -176,7 +181,9 @@ class Run:
                     else:
                         node = node.mapPartitions(pf)
                 else:
-                    node = node.cache() if fn else node.persist()
+                    # fn 0: persist(), 1: cache(), 2..: persist(<every StorageLevel constant>)
+                    node = (node.persist() if fn == 0 else node.cache() if fn == 1
+                            else node.persist(STORAGE_LEVELS[(fn - 2) % len(STORAGE_LEVELS)]))
                 holder['rid'] = node.id()
                 chain.append(node)
             self.nodes.append(chain)
@@ -216,7 +223,8 @@ class Run:
     def observe(self):
         out = []
         for m in self.mgrs:
-            entries = [(self.key(k), list(v['mem_obj'])) for k, v in m.cache_obj.items()]
+            entries = [(self.key(k), list(v['mem_obj']) if v['mem_obj'] is not None else None)
+                       for k, v in m.cache_obj.items()]
             times = [(self.key(k), t) for k, t in getattr(m, '_time_added', [])]
             out.append((entries, times))
         return out
@@ -465,7 +473,7 @@ def _rand_pipeline(rng, nctx, force_persist=True):
         if q > 0:
             out.append(stages[q - 1])
         if marks[q]:
-            out.append((PERSIST, rng.randrange(2)))
+            out.append((PERSIST, rng.randrange(N_PERSIST)))
     return (rng.randrange(nctx), parts, out)
 
 
@@ -554,6 +562,17 @@ def _exhaustive(rng, tier):
     return cases
 
 
+def _level_cases():
+    out = []
+    for v in range(N_PERSIST):
+        for managers, contexts in (([None], [(0, False)]), ([50], [(0, False)]), ([None], [(0, True)])):
+            out.append((managers, contexts,
+                        [(0, [[1, 2], [3], [4, 5, 6]], [(MAP, 0), (PERSIST, v), (FILTER, 0), (PERSIST, (v + 3) % N_PERSIST), (MAP, 1)])],
+                        [(0, 0, 2, 3, 0), (0, 0, 2, 0, 0), (0, 0, 2, 0, 0), (0, 0, 5, 0, 0), (0, 0, 5, 1, 0), (0, 0, 3, 2, 2),
+                         (1, 0, 2), (0, 0, 2, 0, 0), (0, 0, 5, 0, 0)]))
+    return out
+
+
 CORPUS = [
     # the doctest of RDD.cache()
     ([None], [(0, False)], [(0, [[1, 2], [3, 4]], [(MAP, 4), (PERSIST, 1)])],
@@ -626,7 +645,7 @@ def _reuse_case(rng):
 
 
 def generate(rng, tier):
-    cases = list(CORPUS) + _corpus_files()
+    cases = list(CORPUS) + _level_cases() + _corpus_files()
     for _ in range(200 if tier == 'quick' else 3000):
         cases.append(_reuse_case(rng))
     cases += _exhaustive(rng, tier)
@@ -664,7 +683,8 @@ def _threadpool_checks(rng, tier):
         m = CacheManager() if tmo is None else TimedCacheManager(timeout=tmo)
         with ThreadPoolExecutor(2) as pool:
             sc = Context(pool=pool, cache_manager=m)
-            rdd = sc._parallelize_partitions([list(p) for p in parts]).map(f).persist()   # pylint: disable=protected-access
+            rdd = sc._parallelize_partitions([list(p) for p in parts]).map(f).persist(   # pylint: disable=protected-access
+                rng.choice([None] + STORAGE_LEVELS))
             want = [LIB_MAP[fn](x) for p in parts for x in p]
             n = len(want)
             case = ('threadpool', tmo, parts, fn)
@@ -1066,7 +1086,8 @@ def _nonsharing_pool_checks(rng, tier, workdir):
             # (func, rdd) and the task context travel pickled: the workers get COPIES of the dataset objects
             import cloudpickle
             sc = Context(pool=pool, cache_manager=m, serializer=cloudpickle.dumps, deserializer=pickle.loads)
-            p = sc._parallelize_partitions([list(x) for x in parts]).map(_counted_inc).persist()   # pylint: disable=protected-access
+            p = sc._parallelize_partitions([list(x) for x in parts]).map(_counted_inc).persist(
+                rng.choice([None] + STORAGE_LEVELS))   # pylint: disable=protected-access
             q = p.map(_times_ten)
             want_p = [x + 1 for part in parts for x in part]
             want_q = [x * 10 for x in want_p]
